@@ -381,7 +381,10 @@ Section Built.
     si_kR : forall j, In j (po_det acc ++ po_con acc) ->
             exists ri, In (SRxn ri) prev /\ BuiltRxn r acc ri j;
     (* every declared complex is built with the sequence and structure its statement denotes *)
-    si_cplx : forall n names sst, In (n, (names, sst)) (decl_cplx prev) -> exists conc, BuiltCplx r acc n names sst conc
+    si_cplx : forall n names sst, In (n, (names, sst)) (decl_cplx prev) -> exists conc, BuiltCplx r acc n names sst conc;
+    (* every rotation key of a filed complex is registered *)
+    si_rot : forall n i o, dlookup n (po_complexes acc) = Some i -> hget (heap (r_st r)) i = Some o ->
+             forall k, In k (o_keys o) -> klookup k (cs_canon (cget (r_st r) cc)) = Some i
   }.
 
   Definition SInv (prev : list stmt) (r : rstate) (acc : pilout) : Prop :=
